@@ -719,8 +719,9 @@ func (env *specEnv) evalCall(t *ast.CallExpr) Value {
 				env.fail("callid() is only available in a callee contract applied at a call site")
 			}
 			return Value{T: intT, C: []*Term{env.callID}}
-		case "visited":
+		case "visited", "nvisited":
 			// visited(k): key k has already been produced by the map range statement of the current loop
+			// nvisited(): the number of keys produced so far
 			li := env.ex.curLoop
 			if li == nil {
 				env.fail("visited() is only available in invariants of a map range loop")
@@ -737,6 +738,9 @@ func (env *specEnv) evalCall(t *ast.CallExpr) Value {
 			}
 			if rg == nil {
 				env.fail("visited(): the loop is not a map range loop")
+			}
+			if id.Name == "nvisited" {
+				return Value{T: intT, C: []*Term{env.ex.heapOf(env.st, env.ex.nvisitedClass(rg)).Read(nil)}}
 			}
 			mt := rg.X.Type().Underlying().(*types.Map)
 			k := env.toType(env.eval(t.Args[0]), mt.Key())
